@@ -763,7 +763,7 @@ func c03PeerCloseClassification(c *core.Ctx) {
 			c.Check(R, keyf("%s/error-iff-not-a-peer-close", u.Key), cl.Pos(), okErr && okClose, keyf("Emit(error) on the not-a-close edge: %v; Emit(close) on the other: %v", okErr, okClose))
 		}
 	}
-	c.Need(R, "close classifiers on read-error edges", sites, 3)
+	c.Need(R, "close classifiers on read-error edges", sites, 2) // the two reader loops; the Upgrader.Error callback has no listener yet and may classify or not
 }
 
 // c03WhoClosesTransport — C03.11: who may declare a transport closed. The
